@@ -25,7 +25,8 @@ pub const R_PROTO: u64 = 1 << 15; // protobuf decode of all 9 Protobuf types
 pub const R_FILE: u64 = 1 << 16; // reader-based (`*_file`) entry points: take raw bytes
 pub const R_POLICY_FFI: u64 = 1 << 17; // the remaining policy-text entry points (FromStr variants, unconditional formatter, FFI wrappers)
 pub const R_CSCHEMA_FFI: u64 = 1 << 18; // the remaining Cedar-schema-text entry points (FromStr variants, FFI wrappers)
-pub const R_TEXT: u64 = R_POLICY | R_POLICY_FFI | R_EXPR | R_NAME | R_CSCHEMA | R_CSCHEMA_FFI;
+pub const R_EXT: u64 = 1 << 19; // extension-type constructors (ip, decimal, datetime, duration) from a string
+pub const R_TEXT: u64 = R_EXT | R_POLICY | R_POLICY_FFI | R_EXPR | R_NAME | R_CSCHEMA | R_CSCHEMA_FFI;
 pub const R_JSON: u64 = R_J_POLICY | R_J_PSET | R_J_SCHEMA | R_J_ENTITIES | R_J_ENTITY | R_J_CONTEXT | R_J_EUID | R_J_AUTH | R_J_VALIDATE | R_J_FORMAT | R_J_CHECK;
 pub const R_ALL: u64 = R_TEXT | R_JSON | R_PROTO | R_FILE;
 
@@ -119,6 +120,41 @@ pub const SCHEMA_TOKENS_WIDE: &[&str] = &[
     "entity", "action", "type", "namespace", "A", "B", "N", "\"a\"", "\"\"", "in", "appliesTo", "principal", "resource", "context", "{", "}", "[", "]", "(", ")", ",", ";", ":", "::", "?", "=", "<", ">", "Set", "Long", "String", "Bool", "Record", "Entity", "Extension", "ipaddr", "__cedar", "tags", "enum", "@", "attributes", "1", ".", "// c\n",
 ];
 
+/// characters of the extension-value sweep (decimal / ip / datetime / duration syntax)
+pub const EXT_CHARS: &[&str] = &["0", "1", "9", ".", "-", ":", "/", "T", "Z", "+", "h", "m", "s", "d", "a", "f"];
+
+/// valid extension-value strings; every single-character substitution (over EXT_CHARS), deletion
+/// and prefix of each is swept
+pub const EXT_VALID: &[&str] = &[
+    "1.5", "-0.0001", "922337203685477.5807", "10.0.0.1/8", "::1", "ff00::/8", "1:2:3:4:5:6:7:8/128", "2024-01-01", "2024-02-29T23:59:59Z", "2024-01-01T00:00:00.123+0530", "1d2h3m4s5ms", "-1ms", "9223372036854775807ms",
+];
+
+pub fn ext_mutations() -> Vec<Vec<u8>> {
+    let mut v: Vec<Vec<u8>> = vec![];
+    for s in EXT_VALID {
+        let b = s.as_bytes();
+        v.push(b.to_vec());
+        for i in 0..b.len() {
+            for c in EXT_CHARS {
+                let mut m = b.to_vec();
+                m[i] = c.as_bytes()[0];
+                v.push(m);
+            }
+            let mut d = b.to_vec();
+            d.remove(i);
+            v.push(d);
+            v.push(b[..i].to_vec());
+            // insertion of every character before position i
+            for c in EXT_CHARS {
+                let mut m = b.to_vec();
+                m.insert(i, c.as_bytes()[0]);
+                v.push(m);
+            }
+        }
+    }
+    v
+}
+
 /// characters for the string-escape sweep (inside a string literal / pattern / annotation)
 pub const ESCAPE_CHARS: &[&str] = &["\\", "*", "u", "{", "}", "0", "x", "n", "\"", "'", "d", "é"];
 
@@ -167,7 +203,7 @@ pub fn schema_positions_wide() -> Vec<(&'static str, &'static str, &'static str,
 pub fn escape_positions() -> Vec<(&'static str, &'static str, &'static str, u64)> {
     vec![
         ("string", "permit(principal, action, resource) when { \"", "\" == \"a\" };", R_POLICY),
-        ("pattern", "permit(principal, action, resource) when { \"a\" like \"", "\" };", R_POLICY),
+        ("pattern", "permit(principal, action, resource) when { \"*dd\" like \"", "\" };", R_POLICY),
         ("annotation", "@a(\"", "\") permit(principal, action, resource);", R_POLICY),
         ("eid", "User::\"", "\"", R_EXPR | R_NAME),
         ("schema-attr", "entity A { \"", "\": Long };", R_CSCHEMA),
@@ -205,13 +241,13 @@ pub const BYTE_ALPHABET_40: &[u8] = &[
 ];
 
 /// quick-tier substitution alphabet for text seeds
-pub const BYTE_ALPHABET_TEXT_Q: &[u8] = &[0x00, 0xff, b'"', b'\\', b'(', b')', b'{', b'}', b',', b';', b'.', b':', b'-', b'!', b'*', b'@', b'?', b'a', b'0', b' '];
+pub const BYTE_ALPHABET_TEXT_Q: &[u8] = &[0x00, 0xff, b'"', b'\\', b'(', b'{', b'}', b',', b';', b'.', b'*', b'?'];
 /// substitution alphabet for large JSON seeds
 pub const BYTE_ALPHABET_JSON_S: &[u8] = &[0x00, 0xff, b'"', b'\\', b'{', b']', b',', b':', b'0', b'_'];
-/// quick-tier substitution alphabet for protobuf seeds: every tag byte of fields 0..7, small
+/// quick-tier substitution alphabet for protobuf seeds: every tag byte of fields 0..5, small
 /// lengths / varints, and the varint continuation boundary
 pub fn byte_alphabet_proto_q() -> Vec<u8> {
-    let mut v: Vec<u8> = (0..=0x3f).collect();
+    let mut v: Vec<u8> = (0..=0x2f).collect();
     v.extend_from_slice(&[0x7f, 0x80, 0x81, 0xc3, 0xfe, 0xff]);
     v
 }
